@@ -530,3 +530,47 @@ def _unsup(name):
 for _k in ['File::open', 'File::create', 'Path::exists', 'Path::new', 'Path::join', 'Path::parent', 'ureq::get', 'Url::parse', 'Reader::from_str', 'args', 'env::args',
            'split_paths', 'BufReader::new', '<File as Read>::read_to_string', 'Request::call']:
     REG.setdefault(_k, _unsup(_k))
+
+
+@nat('slice::binary_search')
+def slice_binary_search(ex, r, x):
+    """core::slice::binary_search on unsigned integers.  For unsorted input the result is unspecified by the documentation, so the model
+    follows the algorithm of core (size-halving loop, one final comparison); the differential run against the native build validates it."""
+    import z3
+    from .natives import seq_items, vec_of
+    items = [D(ex, it) for it in seq_items(ex, vec_of(ex, r))]
+    key = D(ex, x)
+
+    def cmp(a):      # element vs key: -1 Less, 0 Equal, 1 Greater
+        if isinstance(a, int) and isinstance(key, int):
+            return (a > key) - (a < key)
+        w = a.size() if not isinstance(a, int) else key.size()
+        az = a if not isinstance(a, int) else z3.BitVecVal(a, w)
+        kz = key if not isinstance(key, int) else z3.BitVecVal(key, w)
+        if ex.branch(az == kz):
+            return 0
+        return -1 if ex.branch(z3.ULT(az, kz)) else 1
+    size = len(items)
+    if size == 0:
+        return ERR(0)
+    base = 0
+    while size > 1:
+        half = size // 2
+        mid = base + half
+        if cmp(items[mid]) != 1:
+            base = mid
+        size -= half
+    c = cmp(items[base])
+    return OK(base) if c == 0 else ERR(base + (1 if c == -1 else 0))
+
+
+@nat('<* as Iterator>::find', '<Iter as Iterator>::find')
+def iter_find(ex, r, f):
+    """Iterator::find: the predicate receives a reference to the item"""
+    from .natives import iter_next
+    while True:
+        o = iter_next(ex, r)
+        if o.variant == 0:
+            return NONE()
+        if ex.branch(ex.call_value(f, [Ref(Cell(o.fields[0]))])):
+            return some(o.fields[0])
